@@ -1436,48 +1436,55 @@ Import ZArith.
 Import ListNotations.
 Import Pyrefact.RulesIdxModel Pyrefact.RulesIdxProofs.
 
-(* replace_subscript_looping, as the code is, anywhere in an expression: same value / same exception class in every
-   environment where, at each rewritten comprehension, x is not the index, x holds a list, a tuple or nothing
-   iterable at all, and the element does not mention the new name x_i *)
-Theorem T02i_subscript_looping_partial : forall en e, sub_ok en e = true -> eval en (sub e) = eval en e.
+(* replace_subscript_looping, as the code is after 6ebed2a, anywhere in an expression (used = the names written in
+   the module, covers: it lists at least those of e): same value / same exception class in every environment where, at
+   each rewritten comprehension, x is not the index and x holds a list, a tuple or nothing iterable at all *)
+Theorem T02i_subscript_looping_partial : forall en used e,
+  covers used e = true -> sub_ok en e = true -> eval en (sub used e) = eval en e.
 Proof. exact sub_partial. Qed.
 Print Assumptions T02i_subscript_looping_partial.
 
 (* '[x[i] for i in range(len(x))]' of a list / tuple IS list(x) *)
-Theorem T02i_subscript_looping_simple_value : forall en x i l,
+Theorem T02i_subscript_looping_simple_value : forall en used x i l,
   x <> i -> (lookup en x = Some (VList l) \/ lookup en x = Some (VTup l)) ->
-  eval en (ESub x i BHole) = Ok (VList l) /\ eval en (sub (ESub x i BHole)) = Ok (VList l).
+  eval en (ESub x i BHole) = Ok (VList l) /\ eval en (sub used (ESub x i BHole)) = Ok (VList l).
 Proof. exact sub_simple_value. Qed.
 Print Assumptions T02i_subscript_looping_simple_value.
 
 (* F02idx-1: x[i] of a dictionary looks a key up, iteration yields the keys *)
-Theorem T02i_subscript_looping_refuted : exists en e, eval en (sub e) <> eval en e.
+Theorem T02i_subscript_looping_refuted :
+  exists en used e, covers used e = true /\ eval en (sub used e) <> eval en e.
 Proof. exact sub_refuted. Qed.
 Print Assumptions T02i_subscript_looping_refuted.
 
 (* F02idx-1: len() of an iterator is a TypeError, list() of it is not *)
 Theorem T02i_subscript_looping_iterator_refuted :
-  exists en e, eval en e = Err TypeErr /\ exists v, eval en (sub e) = Ok v.
+  exists en used e, covers used e = true /\ eval en e = Err TypeErr /\ exists v, eval en (sub used e) = Ok v.
 Proof. exact sub_iterator_refuted. Qed.
 Print Assumptions T02i_subscript_looping_iterator_refuted.
 
-(* F02idx-2: the new name x_i captures a variable of that name *)
-Theorem T02i_subscript_looping_capture_refuted : exists en e, sub_ok en e = false /\ eval en (sub e) <> eval en e.
-Proof. exact sub_capture_refuted. Qed.
-Print Assumptions T02i_subscript_looping_capture_refuted.
+(* F02idx-2, the rule before 6ebed2a: the new name x_i captures a variable of that name; the repaired rule leaves the
+   witness alone *)
+Theorem T02i_old_subscript_looping_capture_refuted :
+  exists en used e, covers used e = true /\ sub used e = e /\ eval en (sub_before_6ebed2a used e) <> eval en e.
+Proof. exact sub_before_6ebed2a_refuted. Qed.
+Print Assumptions T02i_old_subscript_looping_capture_refuted.
 
 (* the rule before b71cf14: the index used on its own is no longer bound; the repaired rule leaves the witness alone *)
 Theorem T02i_old_subscript_looping_index_refuted :
-  exists en e, sub e = e /\ eval en (sub_before_b71cf14 e) <> eval en e.
+  exists en used e, covers used e = true /\ sub used e = e /\ eval en (sub_before_b71cf14 used e) <> eval en e.
 Proof. exact sub_before_b71cf14_refuted. Qed.
 Print Assumptions T02i_old_subscript_looping_index_refuted.
 
 Example T02i_sub_examples :
-  sub e_simple = EListOf (EVar 0%nat) /\ sub_ok en_list e_simple = true /\
-  sub (ESub 0%nat 1%nat (BAdd BHole (BInt 1))) = EFor (join 0%nat 1%nat) 0%nat (BAdd (BVar (join 0%nat 1%nat)) (BInt 1)) /\
-  sub_ok en_list (ESub 0%nat 1%nat (BAdd BHole (BInt 1))) = true /\
-  eval en_list (ESub 0%nat 1%nat (BAdd BHole (BInt 1))) = Ok (VList [VInt 2; VInt 3]) /\
-  eval en_dict e_simple = Err KeyErr /\ eval en_dict (sub e_simple) = Ok (VList [VInt 1]).
+  let e1 := ESub 0%nat 1%nat (BAdd BHole (BInt 1)) in
+  sub (used_of en_list e_simple) e_simple = EListOf (EVar 0%nat) /\ sub_ok en_list e_simple = true /\
+  sub (used_of en_list e1) e1 = EFor (join 0%nat 1%nat) 0%nat (BAdd (BVar (join 0%nat 1%nat)) (BInt 1)) /\
+  covers (used_of en_list e1) e1 = true /\ sub_ok en_list e1 = true /\
+  eval en_list e1 = Ok (VList [VInt 2; VInt 3]) /\
+  eval en_dict e_simple = Err KeyErr /\ eval en_dict (sub (used_of en_dict e_simple) e_simple) = Ok (VList [VInt 1]) /\
+  sub_before_6ebed2a (used_of en_capture e_capture) e_capture
+  = EFor (join 0%nat 1%nat) 0%nat (BAdd (BVar (join 0%nat 1%nat)) (BVar (join 0%nat 1%nat))).
 Proof. repeat split; reflexivity. Qed.
 
 (* simplify_transposes (F02idx-5: no guard). Iterated row by row, zip( *zip( *e)) is e when the rows of e all have
